@@ -1,6 +1,7 @@
 import Driver.Codec
 import Driver.Extra
 import Rbacx.Spec.Combining
+import Rbacx.Spec.Operators
 /-
   Driver.Main — one JSON command per input line, one JSON answer per output line.
 -/
@@ -121,6 +122,17 @@ def handle (j : Json) : Except String Json := do
                               ("policy_id", encVal r.policyId)]
       | none => .null
     pure (Json.mkObj [("model", encRawRes model), ("spec", spec)])
+  | "c04" => do
+    -- condition evaluator next to the documented typing table (for single binary conditions)
+    let c ← fieldVal j "cond"
+    let env ← fieldVal j "env"
+    let cx : CondCtx := { o, env, checker := decRel (field j "rel") }
+    let typed : Json :=
+      match condOf c with
+      | .bin op (.list [a, b]) =>
+        .bool (Spec.accepts cx.strict op (Spec.kindOf (resolve o a env)) (Spec.kindOf (resolve o b env)))
+      | _ => .null
+    pure (Json.mkObj [("model", condResJson (evalCond cx (condOf c))), ("typed", typed)])
   | "cond" => do
     let c ← fieldVal j "cond"
     let env ← fieldVal j "env"
